@@ -285,6 +285,27 @@ func GenCtl(thorough bool) []Case {
 					res = append(res, func(g *ctlGen) []Stmt {
 						return []Stmt{Cond{C: Pat{ctlPatterns[pi]}, Then: []Stmt{Cond{C: Pat{ctlPatterns[pj]}, Then: th(g)}, g.trace()}}, Otherwise{Body: []Stmt{g.trace()}}}
 					})
+					// a conditional whose else clause has effects around its own conditions, with an `otherwise` of
+					// the enclosing block behind it (the enclosing flag must survive the else clause, whatever the
+					// statements in it leave behind)
+					for variant := 0; variant < 4; variant++ {
+						variant := variant
+						res = append(res, func(g *ctlGen) []Stmt {
+							var el []Stmt
+							switch variant {
+							case 0:
+								el = []Stmt{g.trace(), Cond{C: Pat{ctlPatterns[2]}, Then: []Stmt{g.trace()}}}
+							case 1:
+								el = []Stmt{Cond{C: Pat{ctlPatterns[2]}, Then: []Stmt{g.trace()}}, g.trace()}
+							case 2:
+								el = []Stmt{g.trace(), Otherwise{Body: []Stmt{g.trace()}}}
+							case 3:
+								el = []Stmt{g.trace(), Cond{C: Pat{ctlPatterns[2]}, Then: []Stmt{g.trace()}}, Otherwise{Body: []Stmt{g.trace()}}, g.trace()}
+							}
+							return []Stmt{Cond{C: Pat{ctlPatterns[pj]}, Then: []Stmt{g.trace()}},
+								Cond{C: Pat{ctlPatterns[pi]}, Then: th(g), Else: el}, Otherwise{Body: []Stmt{g.trace()}}, g.trace()}
+						})
+					}
 					// two sibling conditionals followed by otherwise
 					res = append(res, func(g *ctlGen) []Stmt {
 						return []Stmt{Cond{C: Pat{ctlPatterns[pi]}, Then: th(g)}, Cond{C: Pat{ctlPatterns[pj]}, Then: []Stmt{g.trace()}}, Otherwise{Body: []Stmt{g.trace()}}}
